@@ -248,7 +248,12 @@ func (q *vc16Queue) Update() error               { return nil }
 // vc16WaitGoroutines waits until the goroutines spawned by the scheduler call
 // (lockContainer) have finished: the goroutine count returns to its value before
 // the call. No verdict depends on how long this takes.
-func vc16WaitGoroutines(t *rapid.T, base int) {
+// vc16Failer is satisfied by *rapid.T and *testing.T.
+type vc16Failer interface {
+	Fatalf(format string, args ...interface{})
+}
+
+func vc16WaitGoroutines(t vc16Failer, base int) {
 	deadline := time.Now().Add(120 * time.Second)
 	for i := 0; runtime.NumGoroutine() > base; i++ {
 		if i < 200 {
@@ -404,7 +409,7 @@ func vc16CallsString(calls []vc16Call) string {
 }
 
 // vc16CheckLog applies the oracle to the recorded calls of one runQueue pass.
-func vc16CheckLog(t *rapid.T, ctrs []*vc16Ctr, types []arvados.InstanceType, atQuota bool, calls []vc16Call, desc string) (labels []string, nontrivial bool) {
+func vc16CheckLog(t vc16Failer, ctrs []*vc16Ctr, types []arvados.InstanceType, atQuota bool, calls []vc16Call, desc string) (labels []string, nontrivial bool) {
 	byUUID := map[string]*vc16Ctr{}
 	for _, c := range ctrs {
 		byUUID[c.uuid] = c
@@ -555,4 +560,43 @@ func vc16CheckLog(t *rapid.T, ctrs []*vc16Ctr, types []arvados.InstanceType, atQ
 	labels = append(labels, fmt.Sprintf("waiting:%d", nWaiting))
 	nontrivial = (nWaiting >= 2 && sameTypeDiffPrio) || (atQuota && anyUnlockWaiting && nWaiting >= 2)
 	return labels, nontrivial
+}
+
+// TestVerifC16OrderRegress replays, without the library, the scenario that
+// exposed the defect fixed by repo commit 52dee5e (Create fails for a waiting
+// Locked container, succeeds later in the same pass for a lower-priority one of
+// the same type, which was then started ahead of it).
+func TestVerifC16OrderRegress(t *testing.T) {
+	types := []arvados.InstanceType{test.InstanceType(1), test.InstanceType(2)}
+	log := &vc16Log{}
+	pool := &vc16Pool{log: log, types: types,
+		idle:     map[arvados.InstanceType]int{types[1]: 2},
+		booting:  map[arvados.InstanceType]int{},
+		running:  map[string]time.Time{},
+		createOK: []bool{false, true, true, true},
+	}
+	queue := &vc16Queue{log: log, ents: map[string]container.QueueEnt{}, updated: time.Unix(2000000000, 0), lockOK: map[string]bool{}, unlockOK: map[string]bool{}}
+	ctrs := []*vc16Ctr{
+		{uuid: test.ContainerUUID(1), state: arvados.ContainerStateQueued, prio: 3, typ: 1, lockOK: true, unlkOK: true},
+		{uuid: test.ContainerUUID(2), state: arvados.ContainerStateQueued, prio: 3, typ: 1, lockOK: true, unlkOK: true},
+		{uuid: test.ContainerUUID(3), state: arvados.ContainerStateLocked, prio: 2, typ: 1, lockOK: true, unlkOK: true, waiting: true},
+		{uuid: test.ContainerUUID(4), state: arvados.ContainerStateLocked, prio: 1, typ: 1, lockOK: true, unlkOK: true, waiting: true},
+	}
+	for _, c := range ctrs {
+		queue.lockOK[c.uuid], queue.unlockOK[c.uuid] = c.lockOK, c.unlkOK
+		queue.ents[c.uuid] = container.QueueEnt{
+			Container:    arvados.Container{UUID: c.uuid, State: c.state, Priority: c.prio},
+			InstanceType: types[c.typ],
+		}
+	}
+	ctx := ctxlog.Context(context.Background(), vc16Logger)
+	sch := New(ctx, queue, pool, nil, time.Hour, time.Hour)
+	base := runtime.NumGoroutine()
+	sch.runQueue()
+	vc16WaitGoroutines(t, base)
+	sch.wakeup.Stop()
+	log.mu.Lock()
+	calls := append([]vc16Call(nil), log.calls...)
+	log.mu.Unlock()
+	vc16CheckLog(t, ctrs, types, false, calls, "regression scenario for 52dee5e: type2 idle=2; c1,c2 Queued prio 3; c3 Locked prio 2; c4 Locked prio 1; all type2; Create answers false,true")
 }
